@@ -5,7 +5,8 @@
    tree under test has and compares the implementation with that instance of the model).
    For [V_current] the statements below are refuted by the witnesses at the end. *)
 From Coq Require Import List String Bool Arith ZArith.
-From Annet Require Import Base.Str Model.Json Spec.P_C13 Proofs.JsonProofs Proofs.JsonFragProofs.
+From Annet Require Import Base.Str Model.Json Spec.P_C13 Spec.P_C13_arr Proofs.JsonProofs Proofs.JsonFragProofs
+  Proofs.JsonArrProofs Proofs.JsonDiffProofs.
 Import ListNotations.
 Open Scope string_scope.
 
@@ -165,3 +166,205 @@ Theorem C13_array_step_refuted :
   exists x, dom_frag x = true /\ P_inside x (frag_outcome V_fixed x) = false.
 Proof. exact array_step_refuted. Qed.
 Print Assumptions C13_array_step_refuted.
+
+(* ================================================================ arrays under glob pointers *)
+
+(* Guard [wf_replace pats old f] (Spec/P_C13_arr.v): dict invariant, no root pointer, and every
+   pattern selects the same concrete pointers in old and in f — object members AND array
+   indices.  Patterns may step into arrays ("/a/*", "/a/0") and through them ("/acl/*/act",
+   "/PORT/*/lanes/*"); no "one schema" clause is needed.  In this regime the merge only
+   overwrites.  Outside it the real code (and the model) fail in three ways, see the
+   refutations below; each clause of the guard is what excludes them. *)
+
+Theorem C13_arr_total :
+  forall acl pats old f,
+    parse_acl acl = Some pats -> wf_replace pats old f = true ->
+    exists r, apply_fragment V_fixed old f acl = Some r.
+Proof.
+  intros acl pats old f Hp Hwf. destruct (fragment_replace_main acl pats old f Hp Hwf) as [r [E _]].
+  exists r. exact E.
+Qed.
+Print Assumptions C13_arr_total.
+
+Theorem C13_arr_inside :
+  forall acl pats old f r,
+    parse_acl acl = Some pats -> wf_replace pats old f = true ->
+    apply_fragment V_fixed old f acl = Some r ->
+    forall p, restrict pats r p = restrict pats f p.
+Proof.
+  intros acl pats old f r Hp Hwf Hr. destruct (fragment_replace_main acl pats old f Hp Hwf) as [r' [E [H _]]].
+  rewrite E in Hr. injection Hr as Hr. subst r'. exact H.
+Qed.
+Print Assumptions C13_arr_inside.
+
+Theorem C13_arr_outside :
+  forall acl pats old f r,
+    parse_acl acl = Some pats -> wf_replace pats old f = true ->
+    apply_fragment V_fixed old f acl = Some r ->
+    forall p, outside pats r p = outside pats old p.
+Proof.
+  intros acl pats old f r Hp Hwf Hr. destruct (fragment_replace_main acl pats old f Hp Hwf) as [r' [E [_ [H _]]]].
+  rewrite E in Hr. injection Hr as Hr. subst r'. exact H.
+Qed.
+Print Assumptions C13_arr_outside.
+
+(* merging again changes nothing, and the result is again inside the guard *)
+Theorem C13_arr_idem :
+  forall acl pats old f r,
+    parse_acl acl = Some pats -> wf_replace pats old f = true ->
+    apply_fragment V_fixed old f acl = Some r ->
+    apply_fragment V_fixed r f acl = Some r /\ wf_replace pats r f = true.
+Proof.
+  intros acl pats old f r Hp Hwf Hr.
+  destruct (fragment_replace_main acl pats old f Hp Hwf) as [r' [E [_ [_ [H [_ H2]]]]]].
+  rewrite E in Hr. injection Hr as Hr. subst r'. split; assumption.
+Qed.
+Print Assumptions C13_arr_idem.
+
+Theorem C13_arr_holds :
+  forall acl pats old f,
+    parse_acl acl = Some pats -> wf_replace pats old f = true ->
+    P_C13_frag (old, f, acl) (frag_outcome V_fixed (old, f, acl)) = true.
+Proof. exact fragment_replace_holds. Qed.
+Print Assumptions C13_arr_holds.
+
+(* what _resolve_json_pointers returns, for any container: exactly the existing paths the
+   glob selects (array indices as keys) *)
+Theorem C13_resolve_spec :
+  forall pat d p, uniq d = true ->
+    (In p (resolve_parts false pat d) <-> pmatch pat p = true /\ exists v, get p d = Some v).
+Proof. intros pat d p Hu. exact (sel_any pat d p Hu). Qed.
+Print Assumptions C13_resolve_spec.
+
+(* Full strength (replaces the guard of C13_filter_subdoc_partial): filters may step into
+   arrays, be malformed or select nothing; whenever apply_acl_filters returns, the result is
+   a sub-document of the filtered one. *)
+Theorem C13_filter_subdoc :
+  forall d F r,
+    uniq d = true -> apply_acl_filters V_fixed d F = Some r -> subdoc r d = true.
+Proof. exact filter_subdoc_any. Qed.
+Print Assumptions C13_filter_subdoc.
+
+(* non-vacuity: patterns stepping into an array (last step) and through an array of records *)
+Definition exa_old : json :=
+  JObj [("PORT", JObj [("Eth1/1", JObj [("lanes", JArr [JNum 1; JNum 2]); ("mtu", JNum 1500)])]);
+        ("acl", JArr [JObj [("id", JNum 1); ("act", JStr "permit")]; JObj [("id", JNum 2); ("act", JStr "deny")]]);
+        ("keep", JArr [JNum 0])].
+Definition exa_f : json :=
+  JObj [("acl", JArr [JObj [("act", JStr "deny")]; JObj [("act", JStr "deny"); ("id", JNum 9)]]);
+        ("PORT", JObj [("Eth1/1", JObj [("lanes", JArr [JNum 5; JNum 6])])])].
+Definition exa_acl : list string := ["/PORT/*/lanes/*"; "/acl/*/act"].
+
+Example C13_arr_example_guard :
+  exists pats, parse_acl exa_acl = Some pats /\ wf_replace pats exa_old exa_f = true /\
+               steps_into_array pats exa_old = true /\ wf_C13 pats exa_old exa_f = false.
+Proof. eexists. split; [|split; [|split]]; vm_compute; reflexivity. Qed.
+
+Example C13_arr_example_result :
+  apply_fragment V_fixed exa_old exa_f exa_acl =
+  Some (JObj [("PORT", JObj [("Eth1/1", JObj [("lanes", JArr [JNum 5; JNum 6]); ("mtu", JNum 1500)])]);
+              ("acl", JArr [JObj [("id", JNum 1); ("act", JStr "deny")]; JObj [("id", JNum 2); ("act", JStr "deny")]]);
+              ("keep", JArr [JNum 0])]).
+Proof. vm_compute. reflexivity. Qed.
+
+Example C13_filter_example_array :
+  apply_acl_filters V_fixed exa_old ["/acl/1/act"; "/PORT/*/lanes"] =
+  Some (JObj [("acl", JObj [("1", JObj [("act", JStr "deny")])]);
+              ("PORT", JObj [("Eth1/1", JObj [("lanes", JArr [JNum 1; JNum 2])])])]).
+Proof. vm_compute. reflexivity. Qed.
+
+(* outside the guard (both trees; each witness replayed on the real code): *)
+Theorem C13_array_index_missing_refuted :
+  exists x, dom_frag x = true /\ in_replace_guard x = false /\ fst (frag_outcome V_fixed x) = None.
+Proof. exact array_index_missing_refuted. Qed.
+Print Assumptions C13_array_index_missing_refuted.
+
+Theorem C13_array_member_below_missing_refuted :
+  exists x, dom_frag x = true /\ in_replace_guard x = false /\ fst (frag_outcome V_fixed x) = None.
+Proof. exact array_member_below_missing_refuted. Qed.
+Print Assumptions C13_array_member_below_missing_refuted.
+
+Theorem C13_array_not_removed_refuted :
+  exists x, dom_frag x = true /\ in_replace_guard x = false /\
+            fst (frag_outcome V_fixed x) = Some (JObj [("a", JArr [JNum 4; JNum 2; JNum 3])]) /\
+            P_inside x (frag_outcome V_fixed x) = false.
+Proof. exact array_not_removed_refuted. Qed.
+Print Assumptions C13_array_not_removed_refuted.
+
+Theorem C13_array_becomes_object_refuted :
+  exists x, dom_frag x = true /\ in_replace_guard x = false /\
+            fst (frag_outcome V_fixed x) = Some (JObj [("b", JNum 1); ("a", JObj [("0", JNum 7); ("1", JNum 8)])]) /\
+            P_C13_frag x (frag_outcome V_fixed x) = true /\ P_kinds x (frag_outcome V_fixed x) = false.
+Proof. exact array_becomes_object_refuted. Qed.
+Print Assumptions C13_array_becomes_object_refuted.
+
+(* Not proved: the mixed regime.  Object members added or removed by the LAST pointer step below
+   an array ("/acl/*/x" where some records of old or f lack x) also satisfy the laws on the real
+   code (139 of the 1584 cases of the exhaustive array scope of the correspondence run), but lie
+   outside both guards ([wf_C13]: no arrays; [wf_replace]: same pointers on both sides).  Missing:
+   put/del lemmas with an array prefix, and a guard that is preserved by both kinds of step. *)
+
+(* ================================================================ a verified differ *)
+
+(* RFC 6901: printing a pointer and parsing it back is the identity, for every key *)
+Theorem C13_pointer_roundtrip : forall p, parse_pointer (pointer_path p) = Some p.
+Proof. exact parse_pointer_path. Qed.
+Print Assumptions C13_pointer_roundtrip.
+
+(* The hypothesis of C13_patch_roundtrip_partial is satisfiable: (1) the root differ *)
+Theorem C13_diff_root_ok : forall a b, apply_ops (diff_root a b) a = Some b.
+Proof. exact diff_root_ok. Qed.
+Print Assumptions C13_diff_root_ok.
+
+Theorem C13_patch_hypothesis_satisfiable : exists D, forall a b, apply_ops (D a b) a = Some b.
+Proof. exact patch_hypothesis_satisfiable. Qed.
+Print Assumptions C13_patch_hypothesis_satisfiable.
+
+(* (2) a recursive object differ emitting remove / add / replace with escaped string pointers
+   (Proofs/JsonDiffProofs.diff): for ALL documents with unique keys its patch applies and
+   gives the target up to the order of object members (Python dict ==; Leibniz equality is
+   refuted by diff_not_leibniz: add appends) *)
+Theorem C13_diff_ok :
+  forall a b, uniq a = true -> uniq b = true ->
+    exists r, apply_ops (diff a b) a = Some r /\ jeq r b = true /\ uniq r = true.
+Proof. exact diff_ok. Qed.
+Print Assumptions C13_diff_ok.
+
+(* make_patch (order kept) + apply_patch with the verified differ in place of the library's:
+   the predicate the correspondence evaluates on the real outputs holds, no hypothesis left *)
+Theorem C13_patch_roundtrip_verified_differ :
+  forall a b, uniq a = true -> uniq b = true ->
+    P_C13_patch (a, b) (apply_ops (make_patch_of V_fixed (diff a b)) a) = true.
+Proof. intros a b Ha Hb. apply diff_roundtrip_P_C13; [reflexivity | exact Ha | exact Hb]. Qed.
+Print Assumptions C13_patch_roundtrip_verified_differ.
+
+Example C13_diff_example :
+  uniq ex_a = true /\ uniq ex_b = true /\ apply_ops (diff ex_a ex_b) ex_a = Some ex_r /\ jeq ex_r ex_b = true /\
+  List.length (diff ex_a ex_b) = 7.
+Proof. vm_compute. repeat split. Qed.
+
+(* ---- operation order (the repaired defect: make_patch must keep the library's order) ---- *)
+
+(* sorting is a permutation of the same operations ... *)
+Theorem C13_sort_is_permutation : forall ops, Permutation.Permutation ops (sort_ops ops).
+Proof. exact sort_ops_perm. Qed.
+Print Assumptions C13_sort_is_permutation.
+
+(* ... and EVERY reordering policy that puts a two-element list into "path" order, whatever it
+   does on ties and on longer lists, breaks a correct patch: "sorted by path" is refuted for
+   all such policies, not only for Python's stable sort *)
+Theorem C13_reorder_observable :
+  forall R : list op -> list op,
+    (forall x y, path_leb x y = false -> R [x; y] = [y; x]) ->
+    exists a b ops, apply_ops ops a = Some b /\ apply_ops (R ops) a <> Some b.
+Proof. exact reorder_observable. Qed.
+Print Assumptions C13_reorder_observable.
+
+(* order sensitivity is not a property of one document: for every array length n + 2 there is
+   a document and two permutations of one patch that give different results *)
+Theorem C13_permutation_sensitive_unbounded :
+  forall n, exists l ops ops' b,
+    List.length l = n + 2 /\ Permutation.Permutation ops ops' /\
+    apply_ops ops (JObj [("d", JArr l)]) = Some b /\ apply_ops ops' (JObj [("d", JArr l)]) <> Some b.
+Proof. exact permutation_sensitive_unbounded. Qed.
+Print Assumptions C13_permutation_sensitive_unbounded.
